@@ -703,8 +703,15 @@ def generate_forward():
         # ---- the receive with its handler
         tr = loop.body[0]
         if not (isinstance(tr, ast.Try) and len(tr.body) == 1 and re.fullmatch(r"result = recv_msg\(self\._socket, comment='data: result'\)", ast.unparse(tr.body[0]))
-                and len(tr.handlers) == 1 and ast.unparse(tr.handlers[0].type) == 'ConnectionClosedError' and not tr.finalbody and not tr.orelse):
+                and len(tr.handlers) in (1, 2) and ast.unparse(tr.handlers[0].type) == 'ConnectionClosedError' and not tr.finalbody and not tr.orelse):
             raise Untranslatable(f'{path.name}:{tr.lineno}: unexpected receive statement')
+        if len(tr.handlers) == 2:
+            # a message that cannot be rebuilt on this side: the handler may only record the failure and leave the loop (the
+            # end marker is then written by the guarded block after the loop). Such messages are not in the model's alphabet:
+            # covered by real runs (C01 undecodable outcome of persistent kinds), not by C06_forward_once.
+            h2 = tr.handlers[1]
+            if ast.unparse(h2.type) != 'Exception' or not isinstance(h2.body[-1], ast.Break) or any(not ignorable(ast.unparse(x)) for x in h2.body[:-1]):
+                raise Untranslatable(f'{path.name}:{h2.lineno}: unexpected handler `except {ast.unparse(h2.type)}` around the receive')
         h = tr.handlers[0].body
         if not isinstance(h[-1], ast.Break):
             raise Untranslatable(f'{path.name}:{tr.lineno}: the ConnectionClosedError handler does not leave the loop')
